@@ -153,15 +153,36 @@ theorem mtcp_stream_bundles (cfg : Dtn7.Bundle.Cfg) (hs : cfg.strict = true) (no
     server (Bundles.codec cfg now) (items.flatMap (encItem (Bundles.codec cfg now))) = (bundlesOf items, .eof) :=
   Lemmas.server_stream_on (Bundles.codec cfg now) (Bundles.codec_good cfg hs now) items hP
 
-/-- **mtcp_prefix_bundles**: a connection cut after any number of bytes yields a prefix of the sent bundles.
-The one hypothesis kept explicit is that a strict prefix of a bundle's encoding is not accepted as a bundle. -/
+/-- **mtcp_prefix_bundles**: a connection cut after ANY number of bytes yields a prefix of the sent bundles — never a
+different bundle. No hypothesis about the codec is left: "a strict prefix of a bundle's encoding is not accepted as
+a bundle" is `bundle_truncated_rejected` below (C01's exact consumption + extension stability of the real parser,
+`Dtn7.Lemmas.BundleStable`). -/
 theorem mtcp_prefix_bundles (cfg : Dtn7.Bundle.Cfg) (hs : cfg.strict = true) (now : Nat)
-    (hcut : ∀ b, Bundles.Sendable cfg now b → ∀ k, k < (Dtn7.Bundle.serializeRaw b).length →
-      ∀ x, Dtn7.Bundle.parse cfg now ((Dtn7.Bundle.serializeRaw b).take k) ≠ .ok x)
     (items : List (Item Dtn7.Bundle.Bundle)) (hP : ∀ b ∈ bundlesOf items, Bundles.Sendable cfg now b) (k : Nat) :
     (server (Bundles.codec cfg now) ((items.flatMap (encItem (Bundles.codec cfg now))).take k)).1 <+: bundlesOf items :=
   Lemmas.server_prefix_on (Bundles.codec cfg now) (Bundles.codec_good cfg hs now)
-    (fun b hb k hk x hx => hcut b hb k hk x ((Bundles.codec_parse_ok cfg now _ x).mp hx)) items hP k
+    (fun b hb k hk x hx => Bundles.parse_truncated cfg hs now b hb k hk x ((Bundles.codec_parse_ok cfg now _ x).mp hx))
+    items hP k
+
+/-- No strict prefix of a sendable bundle's serialisation is accepted by `Bundle.UnmarshalCbor`. -/
+theorem bundle_truncated_rejected (cfg : Dtn7.Bundle.Cfg) (hs : cfg.strict = true) (now : Nat)
+    (b : Dtn7.Bundle.Bundle) (hb : Bundles.Sendable cfg now b) (k : Nat)
+    (hk : k < (Dtn7.Bundle.serializeRaw b).length) (x : Dtn7.Bundle.Bundle × Bytes) :
+    Dtn7.Bundle.parse cfg now ((Dtn7.Bundle.serializeRaw b).take k) ≠ .ok x :=
+  Bundles.parse_truncated cfg hs now b hb k hk x
+
+/-- What the real parser accepts on a byte string it accepts, with the same bundle, when more bytes follow. -/
+theorem bundle_parse_extension_stable (cfg : Dtn7.Bundle.Cfg) (now : Nat) (p : Bytes) (b : Dtn7.Bundle.Bundle)
+    (r t : Bytes) (h : Dtn7.Bundle.parse cfg now p = .ok (b, r)) :
+    Dtn7.Bundle.parse cfg now (p ++ t) = .ok (b, r ++ t) :=
+  Dtn7.Bundle.Stable.parse_stable cfg now p b r t h
+
+/-- Non-vacuity of `Sendable` (the example bundle of C01: a fragment with ipn source, five blocks, CRC-16/32). -/
+example : Bundles.Sendable {} 800000000000
+    ⟨⟨7, 1 + 2 ^ 17, 1, .dtn [110, 49] [97, 47, 98], .ipn 23 42, .none, 799999990000, 7, 3600000, 256, 70000⟩,
+     [⟨2, 1, 2, .prevNode (.dtn [103, 119] [])⟩, ⟨3, 0, 1, .hop 30 30⟩, ⟨4, 16, 0, .age 65536⟩,
+      ⟨9, 0, 2, .generic 4000000000 [1, 2, 3]⟩, ⟨1, 0, 2, .payload [104, 105]⟩]⟩ := by
+  decide +kernel
 
 /-- Non-vacuity: a toy codec (one byte `b` encoded as `[b]`) satisfies the hypotheses … -/
 def toyCodec : Codec UInt8 :=
